@@ -124,6 +124,37 @@ C10SeqPart(d) ==
        AllConfsByLevel(LAMBDA ki, li, f : Emit([op |-> "quant.ranks", n |-> n, q |-> [n |-> 11, p |-> -5], qa |-> 11,
                                                conf |-> Conf(ki, li), li |-> li, first |-> f, grp |-> "c10"]))
 
+\* ---- call histories on ONE thread (judged by comparing every call with the same call on a fresh thread) ------
+\* consecutive requests that a per-thread memo keyed too coarsely would confuse: the same level with another kind, levels
+\* whose quantile arguments differ by less than 10^-6, degrees of freedom with the same integer part
+HistLevels == <<"0.95", "0.999999", "0.9999995", "0.5", "0.999999", "0.9", "0.95">>
+HConf(ki, ls) == [kind |-> CKinds[ki], level |-> [dec |-> ls]]
+HistPart(d) ==
+  /\ \A r \in 1..2 : \A xi \in DOMAIN HistLevels : \A ki \in 1..3 :
+       LET c == HConf(ki, HistLevels[xi])  f == (r = 1 /\ xi = 1 /\ ki = 1) IN
+       /\ Emit([op |-> "prop.ci", fe |-> "ci", n |-> 400, k |-> 133, conf |-> c, li |-> 0, first |-> f, grp |-> "hist"])
+       /\ Emit([op |-> "prop.ci", fe |-> "ci_z_normal", n |-> 400, k |-> 133, conf |-> c, li |-> 0, first |-> FALSE, grp |-> "hist"])
+       /\ Emit([op |-> "quant.ranks", n |-> 40, q |-> [n |-> 11, p |-> -5], qa |-> 11, conf |-> c, li |-> 0, first |-> FALSE, grp |-> "hist"])
+       /\ \A ty \in {"f64", "f32"} :
+            Emit([op |-> "mean.ci", fl |-> "arith", ty |-> ty, style |-> "ci", conf |-> c, li |-> 0, first |-> FALSE, grp |-> "hist",
+                  data |-> [rle |-> [j \in 1..10 |-> <<V((j * j) + 3, 0), 1>>], order |-> "asc"]])
+  \* one-sample intervals interleaved with the designed unpaired pairs (real-valued dof 1.9 .. 20.2): the same quantile,
+  \* dof n - 1 = floor(nu) or ceil(nu)
+  /\ \A pi \in 1..NDesigned : \A ki \in 1..3 : \A ls \in {"0.95", "0.9"} :
+       LET c  == HConf(ki, ls)
+           nd == DesignedNu(pi)
+           fl == BigToInt(BigDivFloor(nd[1], nd[2]))
+           da == [rle |-> [j \in DOMAIN DesignedA(pi) |-> <<V(DesignedA(pi)[j], 0), 1>>], order |-> "asc"]
+           db == [rle |-> [j \in DOMAIN DesignedB(pi) |-> <<V(DesignedB(pi)[j], 0), 1>>], order |-> "asc"]
+           one(m) == [op |-> "mean.ci", fl |-> "arith", ty |-> "f64", style |-> "ci", conf |-> c, li |-> 0, first |-> FALSE, grp |-> "hist",
+                      data |-> [rle |-> [j \in 1..m |-> <<V((j * j) + 1, 0), 1>>], order |-> "asc"]] IN
+       /\ Emit(one(fl + 1))
+       /\ Emit([op |-> "mean.ci", fl |-> "unpaired", ty |-> "f64", style |-> "ci", conf |-> c, li |-> 0, first |-> FALSE, grp |-> "hist",
+                data |-> da, datab |-> db])
+       /\ Emit(one(fl + 2))
+       /\ Emit([op |-> "mean.ci", fl |-> "unpaired", ty |-> "f64", style |-> "ci", conf |-> c, li |-> 0, first |-> FALSE, grp |-> "hist",
+                data |-> db, datab |-> da])
+
 \* ---- C16 ----------------------------------------------------------------------------------------
 ScaleExps == <<-40, -7, -1, 1, 10, 60>>
 FlipK == <<1, 3, 2>>
@@ -192,6 +223,20 @@ ZeroMean(d) ==
      /\ Emit(Tf(MeanCase("paired", ty, "ci", ki, li, pa, TRUE) @@ [datab |-> pb], "base", <<>>))
      /\ Emit(Tf(MeanCase("paired", ty, "ci", ki, li, pa @@ [shift |-> V(-2, 0)], FALSE) @@ [datab |-> pb], "shift", [by |-> V(-2, 0)]))
 
+\* scaling into the last binades before the SUM of squares overflows (200 off-centre values of about 5000): the square of
+\* the sum is out of range there, every square and their sum are not - scaling by a power of two stays exact
+EdgeScale(d) ==
+  \A i \in 1..2 : \A ty \in {"f64", "f32"} : \A ki \in 1..3 :
+     LET da == RandSample(990 + i, 200, 5000, 0)
+         k  == IF ty = "f64" THEN 494 ELSE 45
+         pa == [rle |-> [j \in 1..40 |-> <<V(9000 + Pick(990 + i, 200 + j, -300, 300), 0), 1>>], order |-> "asc"]
+         pb == [rle |-> [j \in 1..40 |-> <<V(Pick(990 + i, 300 + j, -300, 300), 0), 1>>], order |-> "asc"]
+         sc(x) == x @@ [scale |-> [p |-> k]] IN
+     /\ Emit(Tf(MeanCase("arith", ty, "ci", ki, 12, da, TRUE), "base", <<>>))
+     /\ Emit(Tf(MeanCase("arith", ty, "ci", ki, 12, sc(da), FALSE), "scale", [k |-> k]))
+     /\ Emit(Tf(MeanCase("paired", ty, "ci", ki, 12, pa, TRUE) @@ [datab |-> pb], "base", <<>>))
+     /\ Emit(Tf(MeanCase("paired", ty, "ci", ki, 12, sc(pa), FALSE) @@ [datab |-> sc(pb)], "scale", [k |-> k]))
+
 PermsOf(n) == Permutations(1..n)
 C16Part(d) ==
   /\ \A i \in 1..ND : \A ty \in {"f64", "f32"} : \A li \in LevSel : \A ki \in 1..3 :
@@ -226,7 +271,7 @@ C16Part(d) ==
 
 Next == /\ ~done
         /\ done' = TRUE
-        /\ CASE Part = "c10" -> C10Part(done) [] Part = "c16" -> (C16Part(done) /\ MixNeg(done) /\ ZeroMean(done)) [] Part = "c10seq" -> C10SeqPart(done)
-             [] Part = "c10extra" -> C10ExtraPart(done)
+        /\ CASE Part = "c10" -> C10Part(done) [] Part = "c16" -> (C16Part(done) /\ MixNeg(done) /\ ZeroMean(done) /\ EdgeScale(done)) [] Part = "c10seq" -> C10SeqPart(done)
+             [] Part = "c10extra" -> C10ExtraPart(done) [] Part = "hist" -> HistPart(done)
 Spec == Init /\ [][Next]_done
 =============================================================================
